@@ -198,11 +198,18 @@ C04_Failed(in, segs, conf) ==
            THEN {} ELSE {"positions_in_span_order"})
      \cup (IF \A a \in 1..Len(segs) :
                  segs[a].pos = <<>> \/
-                 LET lo == AbsOf(segs[a].pos[1], segs[a].peak)
-                     hi == AbsOf(segs[a].pos[Len(segs[a].pos)], segs[a].peak)
-                 IN /\ \A m \in 1..Len(refL) : (lo < X(refL[m]) /\ X(refL[m]) < hi) => hasR(a, refL[m])
-                    /\ \A m \in 1..Len(qryL) : (lo < X(qryL[m]) + segs[a].peak /\ X(qryL[m]) + segs[a].peak < hi)
-                                                  => hasQ(a, qryL[m])
+                 \* the span is measured on each map's own axis: between the segment's first and last reference label
+                 \* for reference labels, between its first and last query label for query labels (an end position
+                 \* without a label of that map is taken over through the seed diagonal). A label that COINCIDES with
+                 \* an end label (twin labels) is on the border, not inside, however far the end pair is off the diagonal
+                 LET f == segs[a].pos[1]
+                     l == segs[a].pos[Len(segs[a].pos)]
+                     rlo == IF f.k # "Q" THEN X(f.r) ELSE X(f.q) + segs[a].peak
+                     rhi == IF l.k # "Q" THEN X(l.r) ELSE X(l.q) + segs[a].peak
+                     qlo == IF f.k # "R" THEN X(f.q) ELSE X(f.r) - segs[a].peak
+                     qhi == IF l.k # "R" THEN X(l.q) ELSE X(l.r) - segs[a].peak
+                 IN /\ \A m \in 1..Len(refL) : (rlo < X(refL[m]) /\ X(refL[m]) < rhi) => hasR(a, refL[m])
+                    /\ \A m \in 1..Len(qryL) : (qlo < X(qryL[m]) /\ X(qryL[m]) < qhi) => hasQ(a, qryL[m])
            THEN {} ELSE {"no_label_inside_span_unaccounted"})
      \cup (IF \A a, b \in 1..Len(segs) : \A j \in 1..Len(segs[a].pos) : \A m \in 1..Len(segs[b].pos) :
                  (<<a, j>> # <<b, m>> /\ segs[a].pos[j].k # "Q" /\ segs[b].pos[m].k # "Q")
